@@ -49,8 +49,8 @@ DATA_OPS = ("Vol", "Slices", "Compute", "Convert")
 # program gets --ignore-scaling (stored values are converted)
 # ":max" / ":minmax" = --input-max 256 alone / --input-min 64 --input-max 192 on every volume command
 # (natively typed volume; the values are mapped to [0, 1], the info becomes float32)
-IMAGE_CLASSES = ["uint8", "uint8:scl+ign", "uint8:max", "float32", "uint8:rgb", "int16", "uint8:c2",
-                 "float32:q", "uint16:minmax", "uint16", "int16:scl", "float64", "uint8:c3", "uint32",
+IMAGE_CLASSES = ["uint8", "uint8:scl+ign", "uint8:max", "uint16:minmax", "float32", "uint8:rgb", "int16",
+                 "uint8:c2", "float32:q", "uint16", "int16:scl", "float64", "uint8:c3", "uint32",
                  "uint16:scl+ign", "uint16:max"]
 INT_CLASSES = ["uint8", "uint32", "uint16", "uint64"]
 # programs that write slice stacks (PNG / TIFF): 8/16-bit grey, RGB, two directories as channels
@@ -373,6 +373,23 @@ def directed_programs(ctx):
                  C("GenScales", "B", src="B", type="image", enc="compressed_segmentation", max="all"),
                  C("Vol", "B"), C("Compute", "B", m="auto")]
         out.append(prog(v, (aio + steps) if n % 2 == 0 else (steps + aio), explicit=False))
+    # --input-min (non-zero) together with --input-max: all-in-one versus steps (the range is a
+    # power of two wide, so that the mapped values are exact)
+    for n, (dt, rngopt) in enumerate([("uint8", [10, 266]), ("uint16", [-5, 251])]):
+        v = vol([rng.randint(257, 300), 3, 2], [1.0, 2.0, 4.0], dt)
+        v["perfect"] = False            # the info becomes float32: --generate-info exits 4
+        aio = [C("AllInOne", "A", type="image", enc="raw", m="auto")]
+        steps = [C("GenInfo", "B", sh="nosh"), C("GenScales", "B", src="B", type="image", enc="raw", max="all"),
+                 C("Vol", "B"), C("Compute", "B", m="auto")]
+        out.append(prog(v, (aio + steps) if n == 0 else (steps + aio), input_range=rngopt))
+    # sizes that are EXACT multiples of the chunk size on one axis (one chunk exactly, two chunks
+    # exactly): all-in-one versus steps
+    for n, shape in enumerate([[3, 2, 64], [2, 3, 128], [64, 2, 3], [2, 128, 3], [64, 64, 1]]):
+        v = vol(shape, iso, ["uint8", "uint16"][n % 2])
+        aio = [C("AllInOne", "A", type="image", enc="raw", m="auto")]
+        steps = [C("GenInfo", "B", sh="nosh"), C("GenScales", "B", src="B", type="image", enc="raw", max="all"),
+                 C("Vol", "B"), C("Compute", "B", m="auto"), C("Stats", "B")]
+        out.append(prog(v, (aio + steps) if n % 2 == 0 else (steps + aio)))
     # compute-scales again after a run that failed while writing the last scale
     for n, (shape, tgt, dt) in enumerate([([70, 10, 8], 16, "uint8"), ([150, 7, 5], 32, "uint16")]):
         v = vol(shape, iso, dt, tgt=tgt)
